@@ -189,7 +189,9 @@ func (s *clientSocket) maybeUpgrade(transports []string, upgrades []string) {
 		switch upgradeTo {
 		case "websocket":
 			s.debug.Log("maybeUpgrade", "upgrading from", s.TransportName(), "to websocket")
-			t = websocket.NewClientTransport(c, s.sid, ProtocolVersion, *s.url, s.requestHeader, s.wsDialOptions)
+			wt := websocket.NewClientTransport(c, s.sid, ProtocolVersion, *s.url, s.requestHeader, s.wsDialOptions)
+			wt.SetMaxPayload(s.maxPayload)
+			t = wt
 		case "webtransport":
 			s.debug.Log("maybeUpgrade", "upgrading from", s.TransportName(), "to webtransport")
 			t = webtransport.NewClientTransport(c, s.sid, ProtocolVersion, *s.url, s.requestHeader, s.webTransportDialer)
